@@ -14,6 +14,7 @@ import (
 const (
 	HelperRank = "zzr" // unique int per physical row: a random permutation of 0..n-1
 	HelperMask = "zzm" // small int 0..3 per physical row
+	HelperPos  = "zzp" // the number of the physical row
 )
 
 // Derived is a real frame reached through a chain of index- and column-changing
@@ -91,7 +92,8 @@ func GenDerived(t *rapid.T, base Table, maxSteps int) Derived {
 	}
 	full := Table{Cols: append(append([]Col(nil), base.Cols...),
 		Col{Name: HelperRank, Kind: KInt, I: rank},
-		Col{Name: HelperMask, Kind: KInt, I: mask})}
+		Col{Name: HelperMask, Kind: KInt, I: mask},
+		Col{Name: HelperPos, Kind: KInt, I: Iota(n)})}
 	qf, origin := BuildVia(t, full)
 	if qf.Err != nil {
 		t.Fatalf("building base frame failed: %v\n%s", qf.Err, full.String())
@@ -159,6 +161,13 @@ func GenDerived(t *rapid.T, base Table, maxSteps int) Derived {
 			d.Route = append(d.Route, "move("+c.Name+")")
 		case 0, 1: // Sort on the unique rank
 			rev := rapid.Bool().Draw(t, "rev")
+			if s > 0 && rapid.IntRange(0, 3).Draw(t, "backtostorageorder") == 0 {
+				// back into storage order: the rows the frame still holds, ascending by their physical number
+				qf = qf.Sort(qframe.Order{Column: HelperPos})
+				sort.Ints(d.Sel)
+				d.Route = append(d.Route, "sort(storage order)")
+				continue
+			}
 			qf = qf.Sort(qframe.Order{Column: HelperRank, Reverse: rev})
 			sortSel(rev)
 			d.Route = append(d.Route, fmt.Sprintf("sort(rev=%v)", rev))
